@@ -348,8 +348,14 @@ def option_sweep(ctx, part, d, rng, codegen, mods):
         os.makedirs(dd, exist_ok=True)
         site = "generic_generator"
         label = ",".join("%s=%d" % (k, opts[k]) for k in keys if opts[k] != BASE_OPTS[k]) or "defaults"
+        # option values in the other truthy forms callers use (1 / numpy.bool_): same meaning as True / False
+        passed = dict(opts)
+        if ci % 3 == 1:
+            passed = {k_: int(v_) for k_, v_ in opts.items()}
+        elif ci % 3 == 2:
+            passed = {k_: np.bool_(v_) for k_, v_ in opts.items()}
         with quiet():
-            ok = lib_call(ctx, "generate_code", site, lambda: (codegen.generate_code(small, dd, **opts), True)[1], not_implemented_ok=False)
+            ok = lib_call(ctx, "generate_code", site, lambda: (codegen.generate_code(small, dd, **passed), True)[1], not_implemented_ok=False)
         files = sorted(os.listdir(dd))
         srcs = [f for f in files if f.endswith((".c", ".cpp"))]
         ctx.check("generation_succeeds_for_option_combination", site, bool(ok) and len(srcs) == 1, {"options": label, "files": files})
